@@ -11,6 +11,7 @@
 package refmeek
 
 import (
+	"context"
 	"errors"
 	"fmt"
 	"io"
@@ -149,10 +150,25 @@ type Resp struct {
 	Size int           // body size, 0 .. MaxBody
 	Hold time.Duration // time the handler keeps the request in flight before answering
 	Mode Mode
+	// Reap: after this answer has been delivered completely and the
+	// connection has sat idle for ReapAfter, the server closes it WITHOUT
+	// announcing it (no "Connection: close") - an idle timeout of a front, a
+	// CDN or a middlebox.  It is only done while no request is in flight: if
+	// the client has started to write its next request by then, the
+	// connection is left alone.  The client does not get to see the end of
+	// the connection before it uses it again (see pipeConn): its next request
+	// on this connection fails before a single byte of it has been written,
+	// which an HTTP client has to handle by re-issuing it on a new connection.
+	Reap      bool
+	ReapAfter time.Duration
 }
 
 func (r Resp) String() string {
-	return fmt.Sprintf("%d/%s/%s", r.Size, r.Hold, r.Mode)
+	s := fmt.Sprintf("%d/%s/%s", r.Size, r.Hold, r.Mode)
+	if r.Reap {
+		s += fmt.Sprintf("/reap+%s", r.ReapAfter)
+	}
+	return s
 }
 
 // ---- request log ---------------------------------------------------------------
@@ -161,6 +177,9 @@ func (r Resp) String() string {
 type Request struct {
 	Seq       int // arrival order, from 0
 	Conn      string
+	ConnID    int           // number of the dial that created the connection the request arrived on
+	Reaped    bool          // the server closed the idle connection silently after this answer
+	ReapNote  string        // "" or why a planned reap was not carried out
 	Arrive    time.Duration // handler entered
 	BodyDone  time.Duration // request body read completely
 	RespStart time.Duration // about to write the response (end of the in-flight interval)
@@ -204,15 +223,134 @@ type Server struct {
 
 	ln  *listener
 	srv *http.Server
+
+	pairs map[net.Conn]*pipeConn // server end -> client end
 }
+
+// pipeConn is the client's end of one in-memory connection.  It behaves like
+// the pipe it wraps, plus one thing a real network does and a pipe does not:
+// when the server has silently closed the idle connection (Resp.Reap) the
+// client's reader does not learn about it ahead of time; the end of the
+// connection surfaces when the client next writes (that Write fails with zero
+// bytes written) or closes.  Without this, the HTTP client would simply see
+// EOF on the idle connection and never try to reuse it - or, worse for a check,
+// see it in the few hundred nanoseconds between taking the connection out of
+// its idle pool and registering the request, where net/http reports "server
+// closed idle connection" and does not retry a POST even though nothing was
+// written (a request that may legitimately be considered in flight).
+type pipeConn struct {
+	net.Conn
+	id  int
+	srv net.Conn
+
+	mu       sync.Mutex
+	nwrites  int64 // Write calls started
+	hidden   bool  // the server end is closed, the reader must not see it yet
+	released chan struct{}
+	relOnce  sync.Once
+
+	// armed by the handler, carried out when the server connection goes idle
+	armed   bool
+	armTok  int64 // generation of the arming (a timer of an earlier answer must not act on a later one)
+	armSeq  int64
+	armWait time.Duration
+	armRec  *Request
+}
+
+func (c *pipeConn) release() { c.relOnce.Do(func() { close(c.released) }) }
+
+func (c *pipeConn) Write(p []byte) (int, error) {
+	c.mu.Lock()
+	c.nwrites++
+	c.mu.Unlock()
+	n, err := c.Conn.Write(p)
+	if err != nil {
+		c.release()
+	}
+	return n, err
+}
+
+func (c *pipeConn) Read(p []byte) (int, error) {
+	n, err := c.Conn.Read(p)
+	if err != nil && n == 0 {
+		c.mu.Lock()
+		hidden := c.hidden
+		c.mu.Unlock()
+		if hidden {
+			<-c.released
+		}
+	}
+	return n, err
+}
+
+func (c *pipeConn) Close() error {
+	c.release()
+	return c.Conn.Close()
+}
+
+// reap closes the server end if the client has not started another request
+// since the handler armed the connection.
+func (s *Server) reap(c *pipeConn, tok int64) {
+	c.mu.Lock()
+	rec := c.armRec
+	if !c.armed || c.armTok != tok {
+		c.mu.Unlock()
+		return
+	}
+	c.armed = false
+	if c.nwrites != c.armSeq {
+		c.mu.Unlock()
+		s.mu.Lock()
+		rec.ReapNote = "not reaped: the next request was already being written"
+		s.mu.Unlock()
+		return
+	}
+	c.hidden = true
+	_ = c.srv.Close() // under the lock: a Write that starts later finds a dead pipe and writes nothing
+	c.mu.Unlock()
+	s.mu.Lock()
+	rec.Reaped = true
+	s.mu.Unlock()
+}
+
+func (s *Server) connState(sc net.Conn, st http.ConnState) {
+	if st != http.StateIdle {
+		return
+	}
+	s.mu.Lock()
+	c := s.pairs[sc]
+	s.mu.Unlock()
+	if c == nil {
+		return
+	}
+	c.mu.Lock()
+	armed, wait, tok := c.armed, c.armWait, c.armTok
+	c.mu.Unlock()
+	if !armed {
+		return
+	}
+	if wait <= 0 {
+		s.reap(c, tok)
+		return
+	}
+	time.AfterFunc(wait, func() { s.reap(c, tok) })
+}
+
+type connKey struct{}
 
 // New starts a server that answers request number i with plan[i] (requests
 // beyond the plan get an empty 200 unless SetTail is used) and takes response bodies from the stream
 // identified by downSalt.
 func New(plan []Resp, downSalt uint32) *Server {
 	s := &Server{start: time.Now(), plan: append([]Resp(nil), plan...), downSalt: downSalt,
-		ln: &listener{ch: make(chan net.Conn), done: make(chan struct{})}}
-	s.srv = &http.Server{Handler: s, ErrorLog: log.New(io.Discard, "", 0)}
+		ln: &listener{ch: make(chan net.Conn), done: make(chan struct{})}, pairs: map[net.Conn]*pipeConn{}}
+	s.srv = &http.Server{Handler: s, ErrorLog: log.New(io.Discard, "", 0), ConnState: s.connState,
+		ConnContext: func(ctx context.Context, sc net.Conn) context.Context {
+			s.mu.Lock()
+			c := s.pairs[sc]
+			s.mu.Unlock()
+			return context.WithValue(ctx, connKey{}, c)
+		}}
 	go func() { _ = s.srv.Serve(s.ln) }()
 	return s
 }
@@ -230,12 +368,15 @@ func (s *Server) SetProbe(f func() int64) { s.probe.Store(f) }
 // a fresh in-memory pipe whose other end is served by the HTTP server.
 func (s *Server) Dial(network, addr string) (net.Conn, error) {
 	c, sc := net.Pipe()
+	pc := &pipeConn{Conn: c, srv: sc, released: make(chan struct{})}
+	s.mu.Lock()
+	pc.id = len(s.dials)
+	s.dials = append(s.dials, network+"!"+addr)
+	s.pairs[sc] = pc
+	s.mu.Unlock()
 	select {
 	case s.ln.ch <- sc:
-		s.mu.Lock()
-		s.dials = append(s.dials, network+"!"+addr)
-		s.mu.Unlock()
-		return c, nil
+		return pc, nil
 	case <-s.ln.done:
 		_ = c.Close()
 		_ = sc.Close()
@@ -247,9 +388,17 @@ func (s *Server) Dial(network, addr string) (net.Conn, error) {
 func (s *Server) Close() {
 	s.mu.Lock()
 	s.closed = true
+	var all []*pipeConn
+	for _, c := range s.pairs {
+		all = append(all, c)
+	}
 	s.mu.Unlock()
 	_ = s.srv.Close()
 	_ = s.ln.Close()
+	for _, c := range all {
+		_ = c.srv.Close()
+		c.release()
+	}
 }
 
 // Since is the server's clock.
@@ -325,7 +474,12 @@ func (s *Server) ServeHTTP(w http.ResponseWriter, r *http.Request) {
 	if resp.Size > MaxBody {
 		resp.Size = MaxBody
 	}
-	rec := &Request{Seq: seq, Conn: r.RemoteAddr, Arrive: time.Since(s.start), Method: r.Method, Host: r.Host,
+	pc, _ := r.Context().Value(connKey{}).(*pipeConn)
+	connID := -1
+	if pc != nil {
+		connID = pc.id
+	}
+	rec := &Request{Seq: seq, Conn: r.RemoteAddr, ConnID: connID, Arrive: time.Since(s.start), Method: r.Method, Host: r.Host,
 		URL: r.URL.String(), SessionID: r.Header.Get("X-Session-Id"), SessionN: len(r.Header.Values("X-Session-Id")),
 		DeclLen: r.ContentLength, InFlight: s.inflight, Resp: resp, DownOff: s.downPlanned}
 	s.downPlanned += int64(resp.Size)
@@ -334,6 +488,22 @@ func (s *Server) ServeHTTP(w http.ResponseWriter, r *http.Request) {
 	s.nreq.Add(1)
 
 	body, err := io.ReadAll(r.Body)
+	if resp.Reap && resp.Mode != ModeClose && pc != nil {
+		// The request has been read completely, so every Write call the
+		// client made for it has started: a Write call beyond this count
+		// belongs to the next request.
+		pc.mu.Lock()
+		pc.armed, pc.armSeq, pc.armWait, pc.armRec = true, pc.nwrites, resp.ReapAfter, rec
+		pc.armTok++
+		pc.mu.Unlock()
+	} else if pc != nil {
+		// a request without a planned reap cancels what an earlier answer on
+		// this connection may have armed (its timer may still be pending)
+		pc.mu.Lock()
+		pc.armed = false
+		pc.armTok++
+		pc.mu.Unlock()
+	}
 	var probe int64
 	if f, ok := s.probe.Load().(func() int64); ok && f != nil {
 		probe = f()
